@@ -22,6 +22,7 @@ import (
 	"crypto/x509"
 	"encoding/asn1"
 	"encoding/base64"
+	"encoding/json"
 	"encoding/pem"
 	"fmt"
 	"math/big"
@@ -450,4 +451,143 @@ func TestVerifC10Keys(t *testing.T) {
 	vRunRapid(t,
 		"rapid: 20 key specs (RSA 512/1024/1536/2040/2047/2048/2049/3072/4096, exponents 3/17/65535/65537, P-224/256/384/521, Ed25519, DSA 1024, X25519) x 15 encoding manglings (none, SSH certificate blob as key, truncate, bit flip, trailing bytes, empty, garbage, wrong PEM type, mismatched SSH type, re-tagged, no PEM, base64 padding, 70 kB) x 6 issuing paths in each path's wire form; non-trivial = the request reached the handler in that wire form; distinct = (key spec, path, mangling)",
 		c10Gen, c10Check)
+}
+
+// ---------------------------------------------------------------- raw byte fuzzing
+
+// c10RawCase: an arbitrary byte string submitted as the public key of a
+// certificate request (classic byte-level fuzzing of the key parsers through
+// the real handlers).  The rapid generator of TestVerifC10Keys is not used as
+// a fuzz target: it generates RSA keys on demand, which exceeds the native
+// fuzzer's 10 s per-execution limit.
+type c10RawCase struct {
+	Path string `json:"path"` // ssh | x509 | x509-kubernetes | role | awsrole
+	Data []byte `json:"data"`
+}
+
+var c10RawPaths = []string{"ssh", "x509", "x509-kubernetes", "role", "awsrole"}
+
+func c10RawCheck(c c10RawCase) *vResult {
+	res := &vResult{NonTrivial: true}
+	w := c10World()
+	class := "other"
+	switch {
+	case bytes.Contains(c.Data, []byte("-----BEGIN")):
+		class = "pem"
+	case bytes.HasPrefix(c.Data, []byte("ssh-")) || bytes.HasPrefix(c.Data, []byte("ecdsa-")):
+		class = "sshline"
+	case len(c.Data) == 0:
+		class = "empty"
+	}
+	res.Desc = vJoin(c.Path, class, fmt.Sprint(len(c.Data)/16))
+	res.label("path:"+c.Path, "class:"+class)
+	var req *http.Request
+	var handler http.HandlerFunc
+	dur := "1h"
+	switch c.Path {
+	case "ssh":
+		req = vCertgenRequest("POST", "/certgen/"+vUserAlice, string(c.Data), &dur, nil)
+		w.applyCred(req, vCred{Kind: "cookie", Bits: AuthTypePassword}, vUserAlice)
+		handler = w.state.certGenHandler
+	case "x509", "x509-kubernetes":
+		req = vCertgenRequest("POST", "/certgen/"+vUserAlice+"?type="+c.Path, string(c.Data), &dur, nil)
+		w.applyCred(req, vCred{Kind: "cookie", Bits: AuthTypePassword}, vUserAlice)
+		handler = w.state.certGenHandler
+	case "role":
+		form := url.Values{"pubkey": {string(c.Data)}}
+		form.Set("identity", vUserRobot)
+		form.Add("requestor_netblock", "10.0.0.0/8")
+		form.Add("target_netblock", "10.0.0.0/8")
+		req = vFormRequest("POST", getRoleRequestingPath, form)
+		w.applyCred(req, vCred{Kind: "cookie", Bits: AuthTypePassword}, "auto-admin")
+		handler = w.state.roleRequetingCertGenHandler
+	case "awsrole":
+		req = vNewRequest("POST", "/aws/requestRoleCertificate/v1", bytes.NewReader(c.Data))
+		req.Header.Set("claimed-arn", "arn:aws:iam::123456789012:role/VerifRole")
+		req.Header.Set("presigned-method", "GET")
+		req.Header.Set("presigned-url", "https://sts.us-west-2.amazonaws.com/?Action=GetCallerIdentity&Version=2011-06-15&X-Amz-Signature=verif")
+		handler = w.state.requestAwsRoleCertificateHandler
+	default:
+		res.NonTrivial = false
+		res.Desc = "invalid"
+		return res
+	}
+	resp := vServe(handler, req)
+	if resp.Panic != "" {
+		res.violate("panic:"+c.Path, "handler panicked on a %d byte key submission: %s", len(c.Data), firstLine(resp.Panic))
+		return res
+	}
+	res.label(fmt.Sprintf("status:%d", resp.Code))
+	if resp.Code != 200 {
+		if vContainsSignedMaterial(resp.Body) {
+			res.violate("signed-in-error:"+c.Path, "status %d but the body carries signed material", resp.Code)
+		}
+		return res
+	}
+	var certKey crypto.PublicKey
+	if c.Path == "ssh" {
+		if sc, err := vParseSSHCert(resp.Body); err == nil {
+			if ck, ok := sc.Key.(ssh.CryptoPublicKey); ok {
+				certKey = ck.CryptoPublicKey()
+			}
+		}
+	} else if xc, err := vParsePEMCert(resp.Body); err == nil {
+		certKey = xc.PublicKey
+	}
+	if certKey == nil {
+		res.violate("undecodable:"+c.Path, "200 without a decodable certificate")
+		return res
+	}
+	if p, ok := certKey.(*ed25519.PublicKey); ok {
+		certKey = *p
+	}
+	res.label("certified")
+	if !c10Strong(certKey) {
+		res.violate("weak-key-certified:"+c.Path+":raw", "certificate issued for a weak/unsupported key %T from a fuzzed submission", certKey)
+	}
+	return res
+}
+
+func c10RawSeeds() [][]byte {
+	var seeds [][]byte
+	for _, k := range []string{"ed25519", "p256", "p384", "rsa2048", "rsa1024"} {
+		pub := vKey(k, "c10rawseed").Public()
+		seeds = append(seeds, []byte(vSSHAuthorizedKey(pub)+"\n"), []byte(vPEMPublicKey(pub)),
+			[]byte(base64.RawURLEncoding.EncodeToString(c10PKIX(pub))))
+	}
+	seeds = append(seeds, []byte{}, []byte("ssh-rsa AAAA"), []byte("-----BEGIN PUBLIC KEY-----\nAAAA\n-----END PUBLIC KEY-----\n"))
+	return seeds
+}
+
+// FuzzVerifC10RawKey: coverage-guided byte-level fuzzing of every key-accepting
+// issuing path; oracle inside the target (no panic, nothing signed on errors,
+// whatever is certified passes the independent strength predicate).
+func FuzzVerifC10RawKey(f *testing.F) {
+	name := f.Name()
+	vSetRule(name, "native coverage-guided fuzzing (go test -fuzz): arbitrary bytes as the submitted public key x issuing path (ssh, x509, kubernetes, role, cloud role), seeded with valid strong and weak keys in every wire form; non-trivial = the request reached the handler; distinct = (path, input class, length/16)", false)
+	if rf := vReplay(); rf != nil {
+		if rf.Test != name {
+			f.Skip("replay is for another test")
+		}
+		var c c10RawCase
+		if err := json.Unmarshal(rf.Case, &c); err != nil {
+			f.Fatalf("verif: bad replay case: %v", err)
+		}
+		if unknown := vRecord(name, c, c10RawCheck(c)); len(unknown) > 0 {
+			vCommitFail(name)
+			f.Fatalf("replayed violation %s: %s", unknown[0].Key, unknown[0].Msg)
+		}
+		f.Skip("replayed case holds")
+	}
+	for i, s := range c10RawSeeds() {
+		f.Add(uint8(i), s)
+	}
+	f.Fuzz(func(t *testing.T, path uint8, data []byte) {
+		c := c10RawCase{Path: c10RawPaths[int(path)%len(c10RawPaths)], Data: data}
+		if unknown := vRecord(name, c, c10RawCheck(c)); len(unknown) > 0 {
+			vCommitFail(name)
+			vFlushViolationsNow()
+			t.Fatalf("violation %s: %s", unknown[0].Key, unknown[0].Msg)
+		}
+	})
 }
